@@ -137,6 +137,20 @@ var c12Lit = core.Mon(c12, "literal-value", func(w *core.W, c *LitCase) {
 		w.Violation("literal-value", "C12/wrong-value", c, want.String(), got.String(), fmt.Sprintf("literal %q evaluates to %s", c.Lit, d.String()))
 		return
 	}
+	// behind the one keyword an operand may follow: a number whatever is written in front (`typeof.5` is `typeof .5`)
+	if c.Lit[0] == '.' || core.Hash64(c.Lit)%4 == 0 {
+		glue := " "
+		if c.Lit[0] == '.' && core.Hash64(c.Lit)%3 != 0 {
+			glue = ""
+		}
+		tsrc := "[typeof" + glue + c.Lit + ", typeof" + glue + c.Lit + " == 'number', (typeof" + glue + c.Lit + ")]"
+		tv, terr, tp, tpv := evalArray1("["+tsrc+"]", nil)
+		w.Count("behind_typeof")
+		if got := show(tv); tp || terr != nil || got != show([]interface{}{[]interface{}{"number", true, "number"}}) {
+			w.Violation("literal-value", "C12/behind-typeof", c, `[["number", true, "number"]]`, fmt.Sprint(got, " ", terr, tpv), fmt.Sprintf("literal %q behind typeof: %s", c.Lit, tsrc))
+			return
+		}
+	}
 	// the literal written directly as an argument: a Go integer, float, string or interface{} parameter receives the
 	// number written (integers below 2^31 here, so that every integer parameter can hold it)
 	if iv, isInt := want.Int64(); isInt && want.IsInt() && iv >= 0 && iv < 1<<31 && c.Embed == "" {
